@@ -287,9 +287,9 @@ def check(ctx):
     ctx.rule("R06.2", "every yielded step is defined by .interchange on the previous value; the pass loop ends only at a fixed point of the trigger")
     ctx.rule("R06.3", "normal_form: cycle check dominates accepting a step and raises NotImplementedError; accepted steps extend the cache")
     ctx.rule("R06.4", "is_right_of uses the interval predicates of C05; flatten is the identity functor; foliation re-scans")
-    check_normalize(ctx)
-    check_normal_form(ctx)
-    check_foliate(ctx)
+    ctx.attempt(check_normalize, ctx)
+    ctx.attempt(check_normal_form, ctx)
+    ctx.attempt(check_foliate, ctx)
     # a diagram that cannot be normalised is refused with NotImplementedError whose message is built from str(diagram): printing must not fail
     ctx.depend("R06.3", "C03", "str() of boxes, layers and diagrams returns a string whatever the names are (the refusal message of normal_form is built from it)", rules={"R03.3"},
                constructs=[":returns-str"], mod="discopy.cat")
